@@ -1,7 +1,7 @@
 SPECIFICATION Spec
 CONSTANTS
   N = 2
-  MaxRuns = 3
+  MaxRuns = 2
   RetryFailed = TRUE
 INVARIANT TypeOK
 INVARIANT LogsNameWhatWasProcessed
@@ -9,4 +9,3 @@ PROPERTY AppendOnly
 PROPERTY NothingLost
 PROPERTY LogsAccumulate
 PROPERTY RefusedChangesNothing
-PROPERTY AllGivenAccounted
